@@ -158,7 +158,7 @@ prop("C03", "exploration",
                   "combinations) are not generated"])
 prop("C14", "fault_enumeration",
      quick=[("atomic", "fast", 510), ("atomic_chain", "fast", 102), ("mixed_disk_faulty", "fast", 600)],
-     thorough=[("atomic", "fast", 12000), ("atomic_chain", "fast", 3000), ("atomic", "san", 400), ("mixed_disk_faulty", "fast", 30000),
+     thorough=[("atomic", "fast", 8000), ("atomic_chain", "fast", 1200), ("atomic", "san", 300), ("mixed_disk_faulty", "fast", 30000),
                ("tracks_disk_faulty", "fast", 15000)],
      relevant=["atomic_pairs"],
      rule="each run = (pre-state S from a seeded fault-free history on an on-disk library, one public mutating call); the call is "
